@@ -129,6 +129,23 @@ def run(pid, tier, seed, replay=None):
                         break
         model = C.run_model(part.engine, cases)
         oracle = oracle_verdicts(part, cases, impl)
+        # observations that disagree or fail a scan are taken again, alone in a fresh process, before they count:
+        # the async engines run on a real scheduler (and timerrt on the real clock), a loaded machine must not
+        # turn into a verdict.  What changes between two runs of the same case is reported as unstable.
+        unstable = 0
+        for _attempt in range(2):
+            idx = [i for i, (c, a, m, o) in enumerate(zip(cases, impl, model, oracle))
+                   if part.project(c, a) != part.project(c, m) or not o.startswith("1")]
+            if not idx or len(idx) > 400:
+                break
+            again = C.run_harness(part.engine, [cases[i] for i in idx], shards=1)
+            changed = [(i, b) for i, b in zip(idx, again) if b != impl[i]]
+            if not changed:
+                break
+            unstable += len(changed)
+            for i, b in changed:
+                impl[i] = b
+            oracle = oracle_verdicts(part, cases, impl)
         evaluations += len(cases)
         traces += len(cases)
         seen = set()
@@ -160,7 +177,7 @@ def run(pid, tier, seed, replay=None):
         cov["parts"][part.name] = {
             "engine": part.engine, "cases": len(cases), "distinct_nontrivial": len(seen),
             "disagreements": len(dis), "oracle_failures": sum(1 for o in oracle if not o.startswith("1")),
-            "vm_compute_cross_checked": nvm, "histogram": hist, "wall_s": round(time.time() - t1, 1),
+            "vm_compute_cross_checked": nvm, "unstable_observations_retaken": unstable, "histogram": hist, "wall_s": round(time.time() - t1, 1),
             "rule": part.rule,
         }
         for i in dis[:3]:
